@@ -202,7 +202,7 @@ func c07Units(tier string) []*Unit {
 		"cycle-watch-tasks": {Tasks: []*T{{Name: "root", Cmds: []C{{Call: &Ref{Task: "ping", VP: "@"}}}},
 			{Name: "ping", RawLines: []string{"watch: true"}, Cmds: []C{{Call: &Ref{Task: "pong", VP: "@"}}}},
 			{Name: "pong", RawLines: []string{"watch: true"}, Cmds: []C{{Call: &Ref{Task: "ping", VP: "@"}}}}}},
-		"cycle-2-calls":  {Tasks: []*T{{Name: "root", Cmds: []C{{Call: &Ref{Task: "a", VP: "@"}}}}, {Name: "a", Cmds: []C{{Call: &Ref{Task: "root", VP: "@"}}}}}},
+		"cycle-2-calls": {Tasks: []*T{{Name: "root", Cmds: []C{{Call: &Ref{Task: "a", VP: "@"}}}}, {Name: "a", Cmds: []C{{Call: &Ref{Task: "root", VP: "@"}}}}}},
 	}
 	var cn []string
 	for k := range cyc {
